@@ -9,7 +9,7 @@ import (
 func TestReplay(t *testing.T) {
 	verif.ReplayMain(map[string]func(){
 		"HarnessAuthHandler": HarnessAuthHandler,
-		"HarnessHasPerm": HarnessHasPerm,
-		"HarnessProxy": HarnessProxy,
+		"HarnessHasPerm":     HarnessHasPerm,
+		"HarnessProxy":       HarnessProxy,
 	})
 }
